@@ -97,6 +97,10 @@ func (c *Cache) Commit() (err error) {
 	c.changes.writeMU.RLock()
 	defer c.changes.writeMU.RUnlock()
 	for src = range c.changes.write {
+		if !c.bufferFS.IsExist(src) {
+			// written and removed again (or the write failed): nothing to send, not even a parent
+			continue
+		}
 		if err = c.remoteFS.MkdirAll(path.Dir(src), filesystem.DefaultUnixDirMode); err != nil {
 			return err
 		}
@@ -104,6 +108,35 @@ func (c *Cache) Commit() (err error) {
 			if err = fshelper.StreamCopy(c.bufferFS, c.remoteFS, src); err != nil {
 				return err
 			}
+		}
+		if c.bufferFS.IsDir(src) {
+			// destination of a directory copy: send the copied tree
+			if err = (fshelper.Copier{SrcFS: c.bufferFS, SrcPath: src, DestFS: c.remoteFS, DestPath: src}).Do(); err != nil {
+				return err
+			}
+		}
+	}
+	// every directory of the buffer was created through the cache (MkdirAll, or as the
+	// parent of a write) and must exist on the remote even if its content was removed again
+	return c.commitDirs(".")
+}
+
+// commitDirs creates the buffer's directories below dirPath on the remote filesystem
+func (c *Cache) commitDirs(dirPath string) (err error) {
+	var nodes []os.FileInfo
+	if nodes, err = c.bufferFS.ReadDir(dirPath); err != nil {
+		return err
+	}
+	for _, node := range nodes {
+		if !node.IsDir() {
+			continue
+		}
+		nodePath := path.Join(dirPath, node.Name())
+		if err = c.remoteFS.MkdirAll(nodePath, filesystem.DefaultUnixDirMode); err != nil {
+			return err
+		}
+		if err = c.commitDirs(nodePath); err != nil {
+			return err
 		}
 	}
 	return nil
